@@ -220,6 +220,88 @@ theorem h1_response_roundtrip_close (is : List OHead) (his : ∀ i ∈ is, i.Int
   rw [if_neg hnb, if_neg (by simp)] at h5
   exact ⟨msg, h1, h2, h3, h5, fun br hrem hw hfin => bodyExact_close br body hrem hw hfin⟩
 
+/-! ## From a fresh connection: every segmentation of the WHOLE message -/
+
+/-- **h1_head_lines_split_independent.** The whole connection content — interim heads, the
+final head, then anything (`after`: body, trailer section, next response) — delivered in ANY
+segmentation `segs`, through a read buffer of any size in which every head line fits: the head
+reader's line primitive hands out exactly the origin's head lines, and the connection reader
+is then in a state that stands exactly at `after`. (This is the state the body theorems
+quantify over: together they cover every segmentation of the whole message.) -/
+theorem h1_head_lines_split_independent (hs : List OHead) (hok : ∀ h ∈ hs, h.OK) (cap : Nat)
+    (hfit : ∀ h ∈ hs, ∀ l ∈ h.lines, l.length + 1 ≤ cap) (after : Bytes)
+    (segs : List Bytes) (fin : NetEnd) (hsegs : segs.flatten = interimsWire hs ++ after) :
+    ∃ br, Bufio.readLines (hs.flatMap OHead.lines).length (Bufio.new cap ⟨segs, fin⟩) =
+        ((hs.flatMap OHead.lines).map (fun l => l ++ [10]), br) ∧
+      br.rem = after ∧ br.WF ∧ br.Fits ∧ br.cap = cap ∧ br.net.fin = fin := by
+  have hwire : interimsWire hs = linesWire (hs.flatMap OHead.lines) := by
+    clear hok hfit hsegs
+    induction hs with
+    | nil => simp [interimsWire, linesWire]
+    | cons h hs ih =>
+      have : interimsWire (h :: hs) = h.wire ++ interimsWire hs := by simp [interimsWire]
+      rw [this, ih, OHead.wire_lines, List.flatMap_cons, linesWire_append]
+  obtain ⟨br, h1, h2, h3, h4, h5, h6⟩ :=
+    Bufio.readLines_spec (hs.flatMap OHead.lines) (Bufio.new cap ⟨segs, fin⟩) after (Bufio.new_wf _ _)
+      (Bufio.new_fits _ _) (by rw [Bufio.new_rem, hsegs, hwire])
+      (by
+        intro l hl
+        simp only [List.mem_flatMap] at hl
+        obtain ⟨h, hh, hl⟩ := hl
+        exact OHead.lines_no_lf h (hok h hh) l hl)
+      (by
+        intro l hl
+        simp only [List.mem_flatMap] at hl
+        obtain ⟨h, hh, hl⟩ := hl
+        exact hfit h hh l hl)
+  exact ⟨br, h1, h2, h3, h4, h5, h6⟩
+
+/-- **h1_response_roundtrip, chunked, from a fresh connection.** The complete statement for one
+framing, end to end: the origin's whole output (interim heads, final head, chunks in any split,
+last chunk, trailer section, then `rest`) arrives in ANY segmentation `segs` on a fresh
+connection with a read buffer in which the head lines, the chunk-size lines and the trailer
+section fit. The head reader returns the origin's status and fields and consumes exactly the
+heads; after the head lines have been read the body automaton delivers — for EVERY read-size
+sequence — exactly the body, then `io.EOF`, exactly the trailer fields, and leaves exactly
+`rest` on the connection. -/
+theorem h1_response_roundtrip_chunked_wire (is : List OHead) (his : ∀ i ∈ is, i.Interim) (hn : is.length ≤ 5)
+    (o : OHead) (ho : o.OK) (hfc : FinalCode o.code) (hba : Req.H1.bodyAllowedForStatus o.code = true)
+    (cc : Bool) (te : Bytes) (tr : Option Bytes) (hF : OriginFraming o cc true te none tr)
+    (hkeys : ∀ tv, tr = some tv → (declKeys tv).any badTrailerKey = false)
+    (cap : Nat) (hcap : 2 ≤ cap) (hfit : ∀ h ∈ is ++ [o], ∀ l ∈ h.lines, l.length + 1 ≤ cap)
+    (cs : List WChunk) (hcs : ∀ c ∈ cs, c.OK cap) (last : Bytes) (hl : LastOK cap last)
+    (trailers : List WField) (hts : ∀ f ∈ trailers, f.OK) (hfitT : (blockWire trailers).length ≤ cap)
+    (rest : Bytes) (segs : List Bytes) (fin : NetEnd)
+    (hsegs : segs.flatten =
+      interimsWire is ++ (o.wire ++ wireFrom cs last (trailerSection trailers ++ rest))) :
+    let after := wireFrom cs last (trailerSection trailers ++ rest)
+    let br := (Bufio.readLines ((is ++ [o]).flatMap OHead.lines).length (Bufio.new cap ⟨segs, fin⟩)).2
+    (∃ msg, Req.H1.parseFinalHead 6 false segs.flatten = some (msg, after) ∧ msg.sl.code = o.code ∧
+      (∀ k, OrdinaryKey k → msg.header.get k =
+        if valuesOf k (fieldsOf o.fs) = [] then none else some (valuesOf k (fieldsOf o.fs))) ∧
+      msg.framing = RespFraming.chunked) ∧
+    br.rem = after ∧
+    BodyExact (H1Body.new .chunked br) (dataOf cs) (trailerGot trailers) rest := by
+  intro after br
+  obtain ⟨msg, h1, h2, h3, _, h5, h6⟩ :=
+    h1_response_roundtrip_chunked is his hn o ho hfc hba cc te tr hF hkeys cap hcap cs hcs last hl trailers hts
+      hfitT rest
+  have hsegs' : segs.flatten = interimsWire (is ++ [o]) ++ after := by
+    rw [hsegs]; simp [interimsWire, after, List.append_assoc]
+  obtain ⟨br', hb1, hb2, hb3, hb4, hb5, _⟩ :=
+    h1_head_lines_split_independent (is ++ [o])
+      (by
+        intro h hh
+        simp only [List.mem_append, List.mem_singleton] at hh
+        rcases hh with hh | rfl
+        · exact (his h hh).1
+        · exact ho)
+      cap hfit after segs fin hsegs'
+  have hbr : br = br' := by simp only [br, hb1]
+  refine ⟨⟨msg, by rw [hsegs]; exact h1, h2, h3, h5⟩, by rw [hbr]; exact hb2, ?_⟩
+  rw [hbr]
+  exact h6 br' hb2 hb3 hb4 hb5
+
 /-! ## Non-vacuity
 
 `HTTP/1.1 103 Early` + `Link: x`, then `HTTP/1.1 200 OK` with the fields
